@@ -92,6 +92,22 @@ Lemma contextual_exit_congr : forall a sv s t,
   seq_at lclass 0 s t -> seq_at lclass 0 (contextual_scope_exit a sv s) (contextual_scope_exit a sv t).
 Proof. intros. unfold contextual_scope_exit. split_saved sv; congr_tac. Qed.
 
+Lemma stack_get_cases : forall cls k i s t, cls (k + i) = KStack -> seq_at cls k s t ->
+  (st_get i s = st_get i t) \/ (st_get i s = Some (VS []) /\ st_get i t = None) \/ (st_get i s = None /\ st_get i t = Some (VS [])).
+Proof.
+  intros cls k i s t C H. pose proof (seq_at_get cls s t k i H) as G. rewrite C in G.
+  destruct (st_get i s) as [[a|d|[|x l]]|]; destruct (st_get i t) as [[a'|d'|[|x' l']]|]; simpl in G; try discriminate; auto; left; congruence.
+Qed.
+
+Lemma detour_exit_congr : forall a sv s t,
+  seq_at lclass 0 s t -> seq_at lclass 0 (detour_scope_exit a sv s) (detour_scope_exit a sv t).
+Proof.
+  intros a sv s t H. unfold detour_scope_exit. destruct sv as [|x1 [|x2 [|x3 r]]]; auto.
+  assert (Tq : truthy (tl_get k_detour v_none s) = truthy (tl_get k_detour v_none t)).
+  { unfold tl_get. destruct (stack_get_cases lclass 0 k_detour s t eq_refl H) as [E|[[E1 E2]|[E1 E2]]]; rewrite ?E, ?E1, ?E2; reflexivity. }
+  rewrite Tq. destruct (truthy (tl_get k_detour v_none t)); auto. apply tl_pop_congr; auto.
+Qed.
+
 Lemma exit_congr : forall c a sv s t, obs_eq s t -> obs_eq (cm_exit c a sv s) (cm_exit c a sv t).
 Proof.
   intros c a sv s t H. apply obs_eq_split in H. destruct H as [Hl Hg]. apply obs_eq_split.
@@ -103,8 +119,8 @@ Proof.
   - split; auto. apply view_options_exit_congr; auto.
   - split; auto. apply context_exit_congr; auto.
   - split; auto. apply contextual_exit_congr; auto.
-  - split; auto. apply tl_pop_congr; auto.
-  - split; auto. apply tl_pop_congr; auto.
+  - split; auto. apply detour_exit_congr; auto.
+  - split; auto. apply detour_exit_congr; auto.
   - split; auto. apply timeit_exit_congr; auto.
   - destruct s as [l g], t as [l' g']. rewrite !dyn_exit_thread. cbn [fst snd] in *.
     destruct sv as [|h [|o [|e [|x r]]]]; cbn [fst snd]; auto. destruct (truthy h); cbn [fst snd]; split; auto; congr_tac.
@@ -245,13 +261,76 @@ Proof.
   - apply nrm_set_equiv. rewrite G. reflexivity.
 Qed.
 
-Lemma detour_restores : forall a s s1 sv,
-  detour_enter a s = Some (s1, sv) -> seq_at lclass 0 (detour_exit s1) s.
+(* --- class detouring: what the generated loops compute ------------------------------------------------------- *)
+(* current_mappings is the top of the stack ({} when there is none); on an ill-typed slot (something true that is
+   not a list) Python would raise: the generated text yields None there and nothing is pushed or popped *)
+Lemma current_mappings_cases : forall l,
+  (exists c, current_mappings l = VD c /\ tl_peek k_detour v_empty_dict l = VD c /\
+             (truthy (tl_get k_detour v_none l) = true -> exists d r, st_get k_detour l = Some (VS (d :: r))))
+  \/ (current_mappings l = v_none /\ truthy (tl_get k_detour v_none l) = true /\ forall s, st_get k_detour l <> Some (VS s)).
 Proof.
-  unfold detour_enter, detour_exit. intros a s s1 sv H.
-  destruct (tl_peek_dict k_detour s []) as [d Hd]. unfold v_empty_dict in H. rewrite Hd in H.
-  destruct a as [x|ms|x]; try discriminate.
-  apply some_pair_inj in H. destruct H as [<- <-]. apply tl_pop_push. reflexivity.
+  intros. unfold current_mappings, tl_get, tl_peek, py_last.
+  destruct (st_get k_detour l) as [[[]|[|]|[|]]|] eqn:E; cbn [truthy v_none v_empty_dict];
+    repeat match goal with |- context [if ?b then _ else _] => destruct b eqn:? end;
+    first [ left; eexists; split; [reflexivity|]; split; [reflexivity|]; intros T; first [discriminate T | eauto]
+          | right; split; [reflexivity|]; split; [reflexivity|]; congruence ].
+Qed.
+
+Lemma fold_setitem_nondict : forall (nw : dict) a,
+  fold_left (fun c kv => py_setitem c (VA (AInt (fst kv))) (VA (snd kv))) nw (VA a) = VA a.
+Proof. induction nw; simpl; auto. Qed.
+
+Lemma detour_scope_enter_typed : forall a l c, current_mappings l = VD c ->
+  exists nw, detour_scope_enter a l = Some (tl_push k_detour (VD (detour_spec c a)) l, [VD (detour_spec c a); nw]).
+Proof.
+  intros a l c H. unfold detour_scope_enter. rewrite H. unfold py_copy, py_for_items, v_empty_dict.
+  assert (F2 : forall nw acc, fold_left (fun a0 kv => py_setitem a0 (VA (AInt (fst kv))) (VA (snd kv))) nw (VD acc) = VD (dict_update acc nw)).
+  { unfold dict_update. induction nw as [|[k v] r IH]; intros acc; simpl; auto. }
+  destruct a as [x|ms|x]; cbn [detour_spec]; try (simpl; eexists; reflexivity).
+  match goal with |- context [fold_left ?f ms (VD [])] => set (F := f) end.
+  assert (Fstep : forall acc s d, F (VD acc) (s, d) = VD (acc ++ match detour_resolve c (s, d) with Some y => [y] | None => [] end)).
+  { intros acc s d. unfold F. cbn [fst snd]. unfold py_contains, py_dict_get, py_append_pair, detour_resolve, dict_has. cbn [fst snd].
+    destruct (dict_get s c); cbn [negb]; [rewrite app_nil_r; reflexivity|].
+    destruct d as [| b | z | z cc tt]; try reflexivity.
+    destruct (dict_get z c); reflexivity. }
+  assert (F1 : forall ms acc, fold_left F ms (VD acc) = VD (acc ++ filter_map (detour_resolve c) ms)).
+  { intro ms0. induction ms0 as [|[s d] r IH]; intros acc; cbn [fold_left filter_map].
+    - rewrite app_nil_r. reflexivity.
+    - rewrite Fstep. destruct (detour_resolve c (s, d)); rewrite IH; rewrite <- ?app_assoc; cbn [app]; try rewrite app_nil_r; reflexivity. }
+  rewrite F1. cbn [app]. rewrite F2. eexists. reflexivity.
+Qed.
+
+Lemma detour_scope_enter_ill : forall a l, current_mappings l = v_none -> exists sv, detour_scope_enter a l = Some (l, sv).
+Proof.
+  intros a l H. unfold detour_scope_enter. rewrite H. unfold py_copy, v_none.
+  match goal with |- context [py_for_items ?x (VA ANone) ?f] =>
+    assert (F : py_for_items x (VA ANone) f = VA ANone) end.
+  { unfold py_for_items. match goal with |- match ?x with _ => _ end = _ => destruct x end; auto. apply fold_setitem_nondict. }
+  rewrite F. unfold tl_push. eexists. reflexivity.
+Qed.
+
+Lemma detour_restores : forall a s s1 sv,
+  detour_scope_enter a s = Some (s1, sv) -> seq_at lclass 0 (detour_scope_exit a sv s1) s.
+Proof.
+  intros a s s1 sv H.
+  destruct (current_mappings_cases s) as [[c [C [P T]]]|[C [T N]]].
+  - destruct (detour_scope_enter_typed a s c C) as [nw E]. rewrite E in H. apply some_pair_inj in H. destruct H as [<- <-].
+    unfold detour_scope_exit.
+    destruct (truthy (tl_get k_detour v_none (tl_push k_detour (VD (detour_spec c a)) s))) eqn:TT.
+    + apply tl_pop_push. reflexivity.
+    + (* nothing could be pushed: the slot holds a false non-list; then nothing is popped *)
+      unfold tl_push in *. unfold tl_get in TT.
+      destruct (st_get k_detour s) as [[x|x|x]|] eqn:G; try apply seq_at_refl.
+      * destruct (Nat.ltb_spec k_detour (length s)).
+        -- rewrite st_get_set_same in TT by auto. discriminate TT.
+        -- rewrite st_set_out by auto. apply seq_at_refl.
+      * destruct (Nat.ltb_spec k_detour (length s)).
+        -- rewrite st_get_set_same in TT by auto. discriminate TT.
+        -- rewrite st_set_out by auto. apply seq_at_refl.
+  - destruct (detour_scope_enter_ill a s C) as [sv' E]. rewrite E in H. apply some_pair_inj in H. destruct H as [<- <-].
+    unfold detour_scope_exit. destruct sv' as [|x1 [|x2 [|x3 r]]]; try apply seq_at_refl.
+    rewrite T. unfold tl_pop. destruct (st_get k_detour s) as [[x|x|[|x r]]|] eqn:G; try apply seq_at_refl.
+    exfalso. eapply N; eauto.
 Qed.
 
 Lemma lift_enter_some : forall f s s1 sv, lift_enter f s = Some (s1, sv) ->
